@@ -146,9 +146,11 @@ def gen_layouts(ctx, thorough):
     if errs:
         raise vlib.Inconclusive(errs[0])
     best = {}
+    ctx.c10_hists = {}   # full scripts per family: gen_grow_jobs splits them into base + growth
     for tag, _ in fam:
         got = 0
-        for h in res[tag].hists():
+        ctx.c10_hists[tag] = list(res[tag].hists())
+        for h in ctx.c10_hists[tag]:
             for n in range(2, len(h) + 1):
                 p = h[:n]
                 if not any(v for ch in ("D", "V") for v in p[-1]["st"]["cm"][ch].values()):
@@ -250,6 +252,96 @@ def make_jobs(ctx, layouts, fams, maxt, n_layouts, concs_per, runs_per, thorough
     return jobs
 
 
+# ------------------------------------------------------------------ layouts that grow under an open iterator
+GROW_ACTIONS = ("open", "write", "commit", "close")
+
+
+def grow_kind(base, fin):
+    """(extends, appends): a stored domain (adjacent ones merged) keeps its start and gets a later end /
+    a domain with a new start appears - per channel, any channel."""
+    ext = app = False
+    for ch in ("I", "D", "V"):
+        b = {d[0]: d[1] for d in base["st"]["dm"][ch]}
+        for d in fin["st"]["dm"][ch]:
+            if d[0] in b and d[1] > b[d[0]]:
+                ext = True
+            elif d[0] not in b and not any(s <= d[0] < e for s, e in b.items()):
+                app = True
+    return ext, app
+
+
+def grow_splits(h, maxlen=6):
+    """All (n0, n1): h[:n0] is a layout with data, h[n0:n1] a run of open/write/commit/close steps that
+    commits something new."""
+    out = []
+    for n0 in range(1, len(h)):
+        base = h[n0 - 1]
+        if not any(v for ch in ("I", "D", "V") for v in base["st"]["cm"][ch].values()):
+            continue
+        n1 = n0
+        while n1 < len(h) and n1 - n0 < maxlen and h[n1]["a"] in GROW_ACTIONS:
+            n1 += 1
+        while n1 > n0 and h[n1 - 1]["st"]["cm"] == h[n1 - 2]["st"]["cm"]:
+            n1 -= 1      # end on a step that commits
+        if n1 > n0 and h[n1 - 1]["st"]["cm"] != base["st"]["cm"]:
+            out.append((n0, n1) + grow_kind(base, h[n1 - 1]))
+    return out
+
+
+def grow_cmds(rnd, seq, nsteps):
+    """Insert one or two `script` commands (together nsteps script steps) into a command sequence."""
+    seq = list(seq)
+    points = 1 if nsteps == 1 or rnd.random() < 0.5 else 2
+    first = rnd.randint(1, nsteps) if points == 2 else nsteps
+    lo = 0 if rnd.random() < 0.15 else 1           # mostly after the first seek
+    pos = sorted(rnd.randint(lo, max(lo, len(seq) - 1)) for _ in range(points))
+    parts = [first, nsteps - first][:points]
+    for p, n in reversed(list(zip(pos, parts))):
+        if n > 0:
+            seq.insert(p, {"c": "script", "n": n})
+    return seq
+
+
+def make_grow_jobs(ctx, fams, maxt, n_jobs, runs_per, first_id):
+    """Jobs whose store script continues while the iterators are open: base = a script prefix (writers
+    stay open), more = the following open/write/commit/close steps, executed by `script` commands."""
+    rnd = random.Random(ctx.seed * 104729 + 5)
+    cands = {True: [], False: []}      # keyed by "extends a domain"
+    seen = set()
+    for tag in sorted(ctx.c10_hists):
+        for h in ctx.c10_hists[tag]:
+            for n0, n1, ext, app in grow_splits(h):
+                key = json.dumps([[(x["a"], x["args"]) for x in h[:n1]], n0], sort_keys=True, default=str)
+                if key in seen:
+                    continue
+                seen.add(key)
+                cands[ext].append((tag, h[:n0], h[n0:n1], ext, app))
+    for v in cands.values():
+        rnd.shuffle(v)
+    picks = []
+    while len(picks) < n_jobs and (cands[True] or cands[False]):
+        for k in (True, True, False):        # two thirds extend a domain the iterator can sit on
+            if cands[k] and len(picks) < n_jobs:
+                picks.append(cands[k].pop())
+    full, inner = bounds_choices(maxt)
+    jobs = []
+    rid = 10 ** 6
+    for gi, (tag, base, more, ext, app) in enumerate(picks):
+        conc = conc_for(ctx.seed, 7000 + gi)
+        runs = []
+        for _ in range(runs_per):
+            fam = rnd.choice(["sweep", "sweep", "mixed", "sim"])
+            seq = grow_cmds(rnd, rnd.choice(fams[fam]), len(more))
+            a, b = rnd.choice(full) if rnd.random() < 0.7 else rnd.choice(inner)
+            modes = ["unary", "stream"] if rnd.random() < 0.4 else ["unary"]
+            runs.append({"rid": rid, "chans": ["D", "V", "I"], "modes": modes, "a": a, "b": b,
+                         "chunk": rnd.choice([1, 2, 3, 100000]), "cmds": seq, "fam": fam})
+            rid += 1
+        jobs.append({"id": first_id + gi, "hist": base, "more": more, "conc": conc, "maxt": maxt, "runs": runs,
+                     "tag": "grow:" + tag, "extends": ext, "appends": app})
+    return jobs
+
+
 # ------------------------------------------------------------------ harness
 def run_harness(ctx, jobs, tag, workers=6, timeout=1500):
     inp = ctx.path("jobs_%s.ndjson" % tag)
@@ -282,15 +374,27 @@ def to_events(trace, lay, tid):
             break
         evs.append(e)
     pts = set(s[0] for s in samples)
-    for e in evs:
+    cut = None
+    for i, e in enumerate(evs):
+        if e["c"] == "script":
+            if e.get("err"):        # the store script diverged from the model: the trace ends before it
+                cut = i
+                break
+            pts.update(p[0] for p in e.get("stored") or [])
+            continue
         pts.update(e["b"])
         pts.update(e["view"])
         pts.add(e["t"])
         pts.add(e["target"])
         pts.update(p[0] for p in e["frame"] if p[0] >= 0)
+    if cut is not None:
+        evs = evs[:cut]
     rank = {v: i for i, v in enumerate(sorted(pts))}
     out = [{"ev": "layout", "tid": tid, "stored": [[rank[s[0]], s[2]] for s in samples]}]
     for e in evs:
+        if e["c"] == "script":
+            out.append({"ev": "grow", "stored": [[rank[p[0]], p[1]] for p in e.get("stored") or []]})
+            continue
         out.append({"ev": "cmd", "c": e["c"], "t": rank[e["t"]], "target": rank[e["target"]],
                     "b": [rank[e["b"][0]], rank[e["b"][1]]], "chunk": min(e["chunk"], 1000),
                     "view": [rank[e["view"][0]], rank[e["view"][1]]],
@@ -402,6 +506,10 @@ def render(trace, lay, upto=None, marks=None):
             out.append("%d %s %s -> %s" % (i, e["c"], e.get("k", ""), "PANIC " + e["panic"] if e.get("panic") else
                                             ("HANG (did not return within the watchdog)" if e.get("hang") else "NOT EXECUTED: " + e["guard"])))
             continue
+        if e["c"] == "script":
+            out.append("%d store script continues under the open iterator: %s -> %s" % (
+                i, e.get("steps"), e.get("err") or "committed samples now at %s" % [f(p[0]) for p in e.get("stored") or []]))
+            continue
         arg = ""
         if e["c"] in ("seekle", "seekge"):
             arg = "(%s)" % f(e["t"])
@@ -433,7 +541,12 @@ def classify(trace, lay, k, viol):
     evs = trace["events"]
     e = evs[k - 1]
     ch = trace["chan"]
-    stored = sorted((s[0], s[2]) for s in lay["samples"][ch])
+    base = sorted((s[0], s[2]) for s in lay["samples"][ch])
+    stored = base
+    for x in evs[:k - 1]:
+        if x["c"] == "script" and not x.get("err"):
+            stored = sorted(tuple(p) for p in x.get("stored") or [])
+    grown = [p for p in stored if p not in base]
     idx_ts = set(s[0] for s in lay["samples"]["I"])
     c = e["c"]
 
@@ -443,7 +556,7 @@ def classify(trace, lay, k, viol):
     while j > 0 and evs[j - 1]["c"] not in SEEKS + ("open", "setbounds"):
         j -= 1
     seek = evs[j - 1] if j > 0 else None
-    since = evs[j:k - 1]
+    since = [x for x in evs[j:k - 1] if x["c"] != "script"]
     same = FWD if c in FWD else BWD
     other = BWD if c in FWD else FWD
     turn = any(x["c"] in other for x in since)
@@ -457,6 +570,10 @@ def classify(trace, lay, k, viol):
     extra = [p for p in got if p not in exp]
     if c in SEEKS + ("open", "setbounds"):
         return "C10 %s %s" % (c, "+".join(sorted(viol)))
+    if grown and missing and all(p in grown for p in missing) and not extra:
+        return "C10 G1 %s misses samples committed while the iterator was open" % c
+    if grown and any(p in grown for p in missing + extra):
+        return "C10 G2 %s %s involving samples committed while the iterator was open" % (c, "+".join(sorted(viol)))
     if seek_out:
         return "C10 D6 %s after %s positioned outside the bounds" % (c, seek["c"])
     if "UnexpectedError" in viol and err_class(e.get("err", "")) == "not-continuous":
@@ -608,6 +725,11 @@ def judged_counts(traces):
             if e.get("panic") or e.get("hang") or e.get("guard"):
                 break
             c = e["c"]
+            if c == "script":
+                if e.get("err"):
+                    break
+                cnt["script_events"] = cnt.get("script_events", 0) + 1
+                continue
             if c in ("open", "setbounds"):
                 failed, pos = False, False
             elif c in SEEKS:
@@ -635,7 +757,7 @@ def series_anomalies(traces):
                 break
             off = 0
             prev_end = None
-            for s in e.get("series", []):
+            for s in e.get("series") or []:
                 part = e["frame"][off:off + s[2]]
                 off += s[2]
                 bad = any(p[0] >= 0 and not (s[0] <= p[0] < s[1]) for p in part) or (prev_end is not None and s[0] < prev_end)
@@ -673,6 +795,11 @@ def run(ctx):
     trans += gst[1]
     n_layouts, concs_per, runs_per = (100, 3, 110) if thorough else (20, 2, 50)
     jobs = make_jobs(ctx, layouts, fams, maxt, n_layouts, concs_per, runs_per, thorough)
+    # layouts that grow while the iterators are open (commits extend the domain an iterator sits on / append one)
+    gjobs = make_grow_jobs(ctx, fams, maxt, 60 if thorough else 14, 20 if thorough else 8, first_id=len(jobs))
+    if not gjobs:
+        raise vlib.Inconclusive("no growing layouts generated")
+    jobs += gjobs
     # 4. record
     summ, lays, traces, wall = run_harness(ctx, jobs, "rec", workers=8 if thorough else 6, timeout=2400)
     status = {}
@@ -707,6 +834,29 @@ def run(ctx):
                 drift[x] = drift.get(x, 0) + 1
     stats["drift_clause_counts"] = drift
     stats["judged"] = judged_counts(traces)
+    gids = {j["id"]: j for j in gjobs}
+    grow = {"jobs": len(gjobs), "jobs_extending_a_domain": sum(1 for j in gjobs if j["extends"]),
+            "jobs_appending_a_domain": sum(1 for j in gjobs if j["appends"]), "traces": 0, "script_diverged": 0,
+            "steps_returning_samples_committed_under_the_iterator": 0, "layout_status": {}}
+    for j in gjobs:
+        stt = lays.get(j["id"], {}).get("status", "missing")
+        grow["layout_status"][stt] = grow["layout_status"].get(stt, 0) + 1
+    for tr in traces:
+        if tr["layout"] not in gids:
+            continue
+        grow["traces"] += 1
+        base = set(x[0] for x in lays[tr["layout"]]["samples"][tr["chan"]])
+        grown = set()
+        for e in tr["events"]:
+            if e["c"] == "script":
+                if e.get("err"):
+                    grow["script_diverged"] += 1
+                    ctx.notes.append("growth script diverged: " + e["err"][:200]) if grow["script_diverged"] <= 2 else None
+                    break
+                grown = set(p[0] for p in e.get("stored") or []) - base
+            elif grown and any(p[0] in grown for p in e.get("frame") or []):
+                grow["steps_returning_samples_committed_under_the_iterator"] += 1
+    stats["growing_layouts"] = grow
     nser, sser = series_anomalies(traces)
     if nser:
         ctx.notes.append("series TimeRange anomalies (drift level): %d, e.g. %s" % (nser, sser))
@@ -727,6 +877,9 @@ def run(ctx):
     stats["layouts_with_adjacent_domains"] = adj
     stats["layouts_with_inexact_domain_start"] = inex
     stats["modes"] = {m: sum(1 for t in traces if t["mode"] == m) for m in ("unary", "stream")}
+    if grow["steps_returning_samples_committed_under_the_iterator"] == 0 or grow["jobs_extending_a_domain"] == 0 \
+            or grow["jobs_appending_a_domain"] == 0 or grow["script_diverged"] * 2 > grow["traces"]:
+        raise vlib.Inconclusive("vacuous run: growing layouts not exercised: %s" % grow)
     if lack or multi == 0 or adj == 0 or inex == 0 or jd.get("steps_with_data", 0) == 0 or not stats["modes"]["stream"]:
         raise vlib.Inconclusive("vacuous run: commands never judged %s, multi-domain layouts %d, adjacent-domain (rollover) layouts %d, "
                                 "inexact-domain-start layouts %d, stats %s" % (lack, multi, adj, inex, jd))
@@ -746,6 +899,8 @@ def run(ctx):
                 "writer starts; every prefix is a layout) replayed into a real cesium.DB under seeded concretisations (3 "
                 "timestamp maps, data types, file caps forcing rollover). TLC-generated command sequences (bounded-exhaustive "
                 "mixed depth 4, sweeps with one turn, random depth 8 with SetBounds) x bounds x chunk sizes {1,2,3,1e5} driven "
+                "(also on layouts that GROW: the script's writers stay open and further open/write/commit/close steps run "
+                "between the commands of an open iterator; every command must see exactly what was committed before it) "
                 "through unary.Iterator and cesium.Iterator; after every command View/Value/Valid/Error recorded and every "
                 "clause of the spec evaluated by TLC (CesiumIterTrace.tla) on the recorded transition" % (n + 1),
         "notes": ctx.notes[:20],
@@ -808,6 +963,16 @@ def selftest(ctx):
     corrupt("wrong order", 4, "FrameIsView", frame=[[9, 4], [6, 3]])
     corrupt("seekfirst skips a sample", 2, "SeekFirstNoSkip", view=[3, 3])
     corrupt("stale value", 3, "FrameIsView", frame=[[2, 1], [4, 7]])
+    # the store grows under the open iterator: a commit adds samples at 7 and 10 after the first step
+    grown = stored + [[10, 6]]
+    grown = sorted(grown + [[7, 5]])
+    ggood = good[:4] + [{"ev": "grow", "stored": grown},
+                        ev("nextauto", [5, 9], [[6, 3], [7, 5]], True),
+                        ev("next", [9, 11], [[9, 4], [10, 6]], True, target=12)]
+    cases.append(("grown store, commits seen", ggood, None, None))
+    stale = json.loads(json.dumps(ggood))
+    stale[6].update(frame=[[9, 4]])
+    cases.append(("step misses a sample committed before it", stale, 6, "FrameIsView"))
     batches = []
     for i, (name, t, idx, clause) in enumerate(cases):
         t = json.loads(json.dumps(t))
